@@ -11,6 +11,8 @@ struct LitForm {
 };
 // W_GT2 is only used by literal form 13 (WITH(_1 > 2))
 constexpr int W_GT2 = 100;
+constexpr int NLITNAMED = 16;   // forms 0..15 are NAMED_ sites (lit.cpp)
+constexpr int NLITALL = 24;     // forms 16..23 are scoped sites (scoped.cpp)
 
 inline const LitForm* lit_forms() {
   static const LitForm f[] = {
@@ -30,6 +32,15 @@ inline const LitForm* lit_forms() {
     /*13*/ {F_f, 1, 1, {M_WILD, 0}, {M_WILD, 0}, W_GT2, X_OFF, true, ".f(_)"},
     /*14*/ {F_ovi, 0, INF, {M_ANY, 0}, {M_WILD, 0}, W_OFF, X_OFF, true, ".ov(ANY(int))"},
     /*15*/ {F_ovs, 0, INF, {M_ANY, 0}, {M_WILD, 0}, W_OFF, X_OFF, true, ".ov(ANY(std::string const&))"},
+    // scoped forms (scoped.cpp): the non-NAMED macros, alive until the end of the enclosing block
+    /*16*/ {F_f, 1, 1, {M_WILD, 0}, {M_WILD, 0}, W_OFF, X_OFF, true, "sm.f(_)"},
+    /*17*/ {F_f, 0, INF, {M_GE, 2}, {M_WILD, 0}, W_OFF, X_OFF, true, "sm.f(ge(2))"},
+    /*18*/ {F_f, 0, 0, {M_VALUE, 3}, {M_WILD, 0}, W_OFF, X_OFF, false, "sm.f(3)"},
+    /*19*/ {F_f, 2, 2, {M_LT, 3}, {M_WILD, 0}, W_OFF, X_LOG, true, "sm.f(lt(3))"},
+    /*20*/ {F_f, 1, INF, {M_VALUE, 1}, {M_WILD, 0}, W_OFF, X_OFF, true, "sm.f(1)"},
+    /*21*/ {F_f, 0, 2, {M_WILD, 0}, {M_WILD, 0}, W_GT2, X_OFF, true, "sm.f(_)"},
+    /*22*/ {F_v, 1, 1, {M_WILD, 0}, {M_WILD, 0}, W_OFF, X_LOG, false, "sm.v(_)"},
+    /*23*/ {F_f, 1, 1, {M_NE, 0}, {M_WILD, 0}, W_OFF, X_OFF, true, "sm.f(ne(0))"},
   };
   return f;
 }
